@@ -404,6 +404,7 @@ static int io_do_op(int idx, op_t* op) {
 // ---- listener / accept / connect --------------------------------------------------------------
 static int lfd = -1;
 static volatile int listen_ready;
+static int listener_nb;
 static struct sockaddr_un laddr;
 static int acc_ok, conn_ok;
 
@@ -415,6 +416,12 @@ static int net_do_op(int idx, op_t* op) {
     // abstract namespace: no file system object, unique per child
     snprintf(laddr.sun_path + 1, sizeof laddr.sun_path - 1, "verif-io-%d", (int)getpid());
     if (bind(lfd, (struct sockaddr*)&laddr, sizeof laddr) || listen(lfd, 8)) vs_violation("engine_limit", "bind/listen failed errno %d", errno);
+    // a: 1/2 = the application polls its listener: non-blocking mode through fcntl / ioctl (accepted sockets are ordinary blocking ones)
+    if (op->a) {
+      int on = 1;
+      if ((op->a == 1 ? fcntl(lfd, F_SETFL, O_NONBLOCK) : ioctl(lfd, FIONBIO, &on)) != 0) gio_fail("badfd_result", "mode change on the listener failed, errno %d", errno);
+      listener_nb = 1;
+    }
     listen_ready = 1;
     return 1;
   }
@@ -423,10 +430,19 @@ static int net_do_op(int idx, op_t* op) {
     for (int k = 0; k < op->a; k++) {
       int before = g_fiber_switches(idx);
       waiting_on_fd[idx] = lfd + 1;
-      int c = accept(lfd, 0, 0);
-      int e = errno;
+      int c;
+      int e;
+      for (;;) {
+        if (listener_nb) g_nb_enter(idx);
+        c = accept(lfd, 0, 0);
+        e = errno;
+        if (listener_nb) g_nb_exit(idx);
+        if (c >= 0 || !listener_nb || (e != EAGAIN && e != EWOULDBLOCK)) break;
+        g_bump(&io_eagain_nb);
+        fiber_yield();
+      }
       waiting_on_fd[idx] = 0;
-      if (g_fiber_switches(idx) != before) g_bump(&io_suspended_calls);
+      if (g_fiber_switches(idx) != before && !listener_nb) g_bump(&io_suspended_calls);
       if (c < 0)
         gio_fail(e == EAGAIN || e == EWOULDBLOCK ? "eagain_on_blocking_fd" : "stream_mismatch", "fiber %d: accept on blocking listener failed with errno %d%s", idx, e,
                  e == EAGAIN ? " (EAGAIN)" : "");
